@@ -126,6 +126,37 @@ Definition provider (decls : list cdecl) (mro : nat -> list nat) (k : nat) (name
 
 Inductive c04_verdict := V_ok | V_known (what : nat) | V_bad.
 
+(** D23: a class on the resolution order re-defines the property without this accessor (a new
+    property object, no [@Base.p.<accessor>]): the library looks the accessor up on the direct bases
+    only, finds none there and does not reach the contracts declared further up. *)
+Definition drops_accessor (d : cdecl) (name : string) (acc : mkind) : bool :=
+  match acc with
+  | MGet | MSet | MDel =>
+      existsb (fun m => String.eqb (md_name m) name && negb (md_inherit m)
+                        && match md_kind m with MGet | MSet | MDel => true | _ => false end) (cd_members d)
+      && negb (existsb (fun m => String.eqb (md_name m) name && acc_matches acc (md_kind m)) (cd_members d))
+  | _ => false
+  end.
+
+Fixpoint after_gap (decls : list cdecl) (name : string) (acc : mkind) (mro : list nat) : list nat :=
+  match mro with
+  | [] => []
+  | c :: rest => match nth_error decls c with
+                 | Some d => if drops_accessor d name acc then rest else after_gap decls name acc rest
+                 | None => after_gap decls name acc rest
+                 end
+  end.
+
+Definition above_gap_ids (decls : list cdecl) (mro : nat -> list nat) (p : nat) (name : string) (acc : mkind)
+  : list Z * list Z * list Z :=
+  let cs := after_gap decls name acc (mro p) in
+  let ms := flat_map (fun c => match nth_error decls c with
+                               | Some d => match own_member d name acc with Some m => [m] | None => [] end
+                               | None => [] end) cs in
+  (flat_map own_pre ms, flat_map own_post ms, flat_map own_snaps ms).
+
+Definition zsubset (a b : list Z) : bool := forallb (fun x => zmem x b) a.
+
 (** compare the lists a member shows with the declarative effective contracts *)
 Definition check_member_view (decls : list cdecl) (mro : nat -> list nat) (k : nat) (name : string) (acc : mkind)
            (v : fview) : c04_verdict :=
@@ -144,6 +175,16 @@ Definition check_member_view (decls : list cdecl) (mro : nat -> list nat) (k : n
                    else declared_posts decls mro p name acc in
       let snaps := if ctor then (match definers decls mro p name acc with (_, m) :: _ => own_snaps m | [] => [] end)
                    else declared_snaps decls mro p name acc in
+      let '(gap_pre, gap_post, gap_snaps) := above_gap_ids decls mro p name acc in
+      let gap_class :=
+        negb ctor && negb (is_nil (after_gap decls name acc (mro p))) &&
+        (* nothing is shown that was not declared, and whatever is missing was declared above the gap *)
+        zsubset (fv_post v) posts && zsubset (fv_snaps v) snaps && zsubset (List.concat (fv_pre v)) (List.concat groups) &&
+        zsubset (filter (fun x => negb (zmem x (fv_post v))) posts) gap_post &&
+        zsubset (filter (fun x => negb (zmem x (fv_snaps v))) snaps) gap_snaps &&
+        zsubset (filter (fun x => negb (zmem x (List.concat (fv_pre v)))) (List.concat groups)) gap_pre &&
+        negb (zset_eqb (fv_post v) posts && zset_eqb (fv_snaps v) snaps && gset_eqb (fv_pre v) groups) in
+      if gap_class then V_known 1 else
       if negb (zset_eqb (fv_post v) posts && zset_eqb (fv_snaps v) snaps) then V_bad
       else if negb ctor && accept_all decls mro p name acc
            then (if is_nil (fv_pre v) then V_ok
@@ -186,7 +227,7 @@ Definition declared_invs (decls : list cdecl) (mro : nat -> list nat) (k : nat) 
                      end) (mro k).
 
 Definition verdict_code (v : c04_verdict) : Z :=
-  match v with V_ok => 0%Z | V_known _ => 1%Z | V_bad => 2%Z end.
+  match v with V_ok => 0%Z | V_known 0 => 1%Z | V_known _ => 3%Z | V_bad => 2%Z end.
 
 (** C04 / C18 on the final view of a history: 0 = as declared, 1 = only known-finding classes differ, 2 = violated *)
 Definition spec_C04_code (c : ecase) (w_model : world) (final : wview) : Z :=
